@@ -22,7 +22,7 @@ type C01Case struct {
 
 const c01Rule = "generator: 1-6 valid origin patterns derived from a shared pool of base hosts over a tiny label alphabet " +
 	"(hosts share byte suffixes that are not label boundaries; exact and *. variants, trailing dots, IPv4/IPv6 literals, several schemes/ports), " +
-	"or long hosts up to 253 bytes with 64-byte schemes; ~14% of lists additionally contain the single asterisk at a drawn position, 25% are checked under a credentialed configuration; a twin list = drawn permutation with drawn duplications; probes = complete near-miss set " +
+	"or long hosts up to 253 bytes with 64-byte schemes, or (5%) 9-260 patterns around one base host (siblings differing in the byte next to a shared suffix, many ports or many schemes on one host, a chain of ever deeper subdomains); ~14% of lists additionally contain the single asterisk at a drawn position, 25% are checked under a credentialed configuration; a twin list = drawn permutation with drawn duplications; probes = complete near-miss set " +
 	"of every pattern (left extension without dot, truncation on either side, deeper/shallower/sibling subdomain, scheme prefix/suffix/other, " +
 	"port absent/default/65535/digit-appended/truncated) plus drawn extras. evaluations = probe verdicts compared with the denotation model " +
 	"(GET and preflight, list and twin). non-trivial case = list with >=2 distinct patterns of which two share a non-empty host byte suffix; " +
@@ -32,6 +32,8 @@ func c01Gen(t *rapid.T) C01Case {
 	var ps []Pat
 	if chance(t, "long", 7) {
 		ps = genLongPatList(t)
+	} else if chance(t, "wide", 5) {
+		ps = genWidePatList(t)
 	} else {
 		ps = genPatList(t)
 	}
@@ -184,7 +186,9 @@ func c01Check(c C01Case, rec *Recorder) *Disc {
 	wraps := []func(http.Handler) http.Handler{oneWrap(m1.Wrap), oneWrap(m2.Wrap)}
 	m1.Config() // Config() is an observer: calling it (on the first middleware only) changes nothing about matching
 	for _, o := range probes {
-		if !hostLenOK(o) {
+		if !hostLenOK(o) && (model.All || model.DenotedBy(o)) {
+			// beyond the documented component limits only a wildcard (or *) could reach the origin: grey.
+			// An over-long origin that NO pattern reaches is judged like any other near miss.
 			rec.Class("probe-not-judged-too-long")
 			continue
 		}
